@@ -175,6 +175,19 @@ func genSpec(r *hxlib.Run, rng *rand.Rand, kind string) Spec {
 				}
 			}
 		}
+	case "contention":
+		// a large backlog is still buffered when Shutdown is requested, while the writer competes for one
+		// CPU with busy goroutines: Shutdown must nevertheless write everything logged before it.
+		// Observation is kept cheap (light) so that the writer spends its time in finalizeWriting's select.
+		s.Cap = 150000 + rng.Intn(100000)
+		s.Paced, s.TriggerUs = true, 0
+		s.Procs, s.Hogs = 1, 2+rng.Intn(3)
+		s.Light = true
+		s.MaxPaths = 50
+		np = 1 + rng.Intn(2)
+		maxReps = 120
+		items = (s.Cap - 5000) / 60 / np
+		pSleep, pTr = 0, 0
 	case "many":
 		np = 16 + rng.Intn(17)
 		items = 10 + rng.Intn(r.Budget(60, 400))
@@ -188,7 +201,7 @@ func genSpec(r *hxlib.Run, rng *rand.Rand, kind string) Spec {
 	if rng.Intn(6) == 0 {
 		s.Glob = genLevel(rng)
 	}
-	if kind != "yield" && rng.Intn(4) == 0 {
+	if kind != "yield" && kind != "contention" && rng.Intn(4) == 0 { // (a sleeping goroutine waits tens of ms for its turn under contention)
 		s.YieldPm, s.YieldUs = rng.Intn(30), rng.Intn(200)
 	}
 	if rng.Intn(5) == 0 {
@@ -199,6 +212,7 @@ func genSpec(r *hxlib.Run, rng *rand.Rand, kind string) Spec {
 			s.Glue = append(s.Glue, g)
 		}
 	}
+	light := s.Light
 	for g := 0; g < np; g++ {
 		var prog []Op
 		item := 0
@@ -230,7 +244,7 @@ func genSpec(r *hxlib.Run, rng *rand.Rand, kind string) Spec {
 			default:
 				item++
 				op := Op{Kind: "log", Lvl: 1 + rng.Intn(6), Org: rng.Intn(3), Item: item, Reps: 1}
-				if rng.Intn(4) == 0 {
+				if rng.Intn(4) == 0 && !light {
 					op.Kind = "logf"
 				}
 				if maxReps > 1 {
@@ -242,7 +256,11 @@ func genSpec(r *hxlib.Run, rng *rand.Rand, kind string) Spec {
 				}
 				prog = append(prog, op)
 				// twin: the same message again at another severity (another call site): must NOT be merged
-				switch rng.Intn(12) {
+				tw := rng.Intn(12)
+				if light {
+					tw = 99 // the cheap adapter does not look at call sites
+				}
+				switch tw {
 				case 0:
 					tw := op
 					tw.Lvl = 1 + (op.Lvl+rng.Intn(5))%6
@@ -346,8 +364,8 @@ func generate(r *hxlib.Run, emit func(hxlib.Case)) {
 	emit(hxlib.Case{Lines: []string{"w token token"}, Kind: "malformed"})
 	emit(hxlib.Case{Lines: []string{"w token unset slot W:1:3:1:0:0", "p 0 1 line enq won tokFull ret", "p 0 1 line enq won ret"}, Kind: "malformed"})
 	// (3) scenarios on the real logger, child process each
-	kinds := []string{"basic", "dups", "overflow", "burst", "paced", "paced-notrigger", "paced-flood", "levels", "mid", "tracer", "yield", "many", "smallcap", "smallcap"}
-	n := r.Budget(252, 2100)
+	kinds := []string{"basic", "dups", "overflow", "burst", "paced", "paced-notrigger", "paced-flood", "levels", "mid", "tracer", "yield", "many", "smallcap", "smallcap", "contention"}
+	n := r.Budget(300, 2400)
 	type job struct {
 		kind string
 		spec Spec
@@ -501,12 +519,20 @@ func parseRun(lines []string) *runRec {
 			rr.items[it.gid] = append(rr.items[it.gid], it)
 		case "out":
 			for _, t := range f[1:] {
+				count := 1
+				if i := strings.IndexByte(t, '*'); i >= 0 { // "gid:key:dups*count": count identical writes in a row
+					count = atoi(t[i+1:])
+					t = t[:i]
+				}
 				p := strings.Split(t, ":")
-				if len(p) < 3 {
+				if len(p) < 3 || count < 1 {
 					rr.bad = "out token " + t
 					continue
 				}
 				o := outw{gid: atoi(p[0]), item: atoi(p[1]), dups: atoi(p[2])}
+				for k := 1; k < count; k++ {
+					rr.outs = append(rr.outs, o)
+				}
 				if len(p) > 3 {
 					o.tracer = true
 					if len(p[3]) > 1 {
